@@ -11,7 +11,9 @@
 package main
 
 import (
+	"bufio"
 	"encoding/binary"
+	"encoding/json"
 	"fmt"
 	"os"
 	"runtime/pprof"
@@ -64,6 +66,9 @@ type kenv struct {
 	scale int64
 	names map[crypto.Address]string
 	addrs map[string]crypto.Address
+	coll  crypto.Address
+	genKey string           // JSON of the genesis step the layer below was built from
+	gen    store.MultiStore // state after genesis (verified once), shared by the behaviours of one run
 }
 
 func newKenv(scale int64) *kenv {
@@ -87,18 +92,19 @@ func newKenv(scale int64) *kenv {
 	}
 	ms.Commit()
 	e := &kenv{ms: ms, key: mainKey, acck: acck, bankk: bankk, prmk: prmk, base: ctx, scale: scale}
+	e.coll = acck.FeeCollectorAddress(ctx)
 	return e
 }
 
-func (e *kenv) reset(addrNames []string) {
-	e.outer = e.ms.MultiCacheWrap()
+func (e *kenv) reset(addrNames []string, from store.MultiStore) {
+	e.outer = from.MultiCacheWrap()
 	e.now = 0
 	e.names = map[crypto.Address]string{}
 	e.addrs = map[string]crypto.Address{}
 	for _, n := range addrNames {
 		var a crypto.Address
 		if n == "coll" {
-			a = e.acck.FeeCollectorAddress(e.ctxOn(e.outer))
+			a = e.coll
 		} else {
 			a = crypto.AddressFromPreimage([]byte("verif-bank-" + n))
 		}
@@ -111,7 +117,6 @@ func (e *kenv) ctxOn(ms store.MultiStore) sdk.Context {
 	return e.base.WithMultiStore(ms).WithBlockHeader(&bft.Header{ChainID: "verif-chain", Height: 1, Time: time.Unix(t0+e.now, 0).UTC()})
 }
 
-type errClass struct{ s string }
 
 // run executes one keeper call on its own cache layer. A panic discards the layer (transaction
 // abort); an error return keeps whatever the call wrote (the keeper's own error atomicity is what
@@ -366,7 +371,7 @@ func (e *kenv) step(s mbt.Step) string {
 	case "DeductFee":
 		return e.run(false, func(ctx sdk.Context) error {
 			acc := e.acck.GetAccount(ctx, A("from"))
-			res := auth.DeductFees(e.bankk, ctx, acc, e.acck.FeeCollectorAddress(ctx), std.Coins{{Denom: denomU, Amount: int64(s.Int("fee")) * e.scale}})
+			res := auth.DeductFees(e.bankk, ctx, acc, e.coll, std.Coins{{Denom: denomU, Amount: int64(s.Int("fee")) * e.scale}})
 			if res.IsOK() {
 				return nil
 			}
@@ -421,11 +426,21 @@ func replayOne(e *kenv, beh []mbt.Step) (mis *mism, steps int) {
 	}
 	nameList := mbt.Strs(beh[0]["addrs"])
 	sort.Strings(nameList)
-	e.reset(nameList)
+	gk := mbt.JS(beh[0])
+	fresh := e.gen == nil || e.genKey != gk
+	if fresh {
+		e.reset(nameList, e.ms)
+	} else {
+		e.reset(nameList, e.gen)
+	}
 	cs := map[string]any{"scale": e.scale}
 	for k, s := range beh {
 		var reply string
 		if k == 0 {
+			if !fresh {
+				steps++
+				continue // this genesis was applied and compared before; start from its layer
+			}
 			gctx := e.ctxOn(e.outer)
 			for _, g := range s["gen"].([]any) {
 				e.genesis(gctx, g.(map[string]any))
@@ -445,12 +460,53 @@ func replayOne(e *kenv, beh []mbt.Step) (mis *mism, steps int) {
 			return &mism{"C14:auth-invariant:" + s.Act(), fmt.Sprintf("step %d %s: auth.AllInvariants broken: %s", k, s.Act(), obs.authMsg), cs}, steps
 		}
 		exp := normExp(s["st"].(map[string]any))
-		if reply != s.Str("reply") || !mbt.Eq(obs, exp) {
+		if reply != s.Str("reply") || !obs.equals(exp, nameList) {
 			key := fmt.Sprintf("C14:%s:%s", s.Act(), s.Str("reply"))
 			return &mism{key, fmt.Sprintf("step %d %s: reply %q (spec %q); state %s (spec %s) bank-invariants: %q", k, mbt.JS(dropSt(s)), reply, s.Str("reply"), mbt.JS(obs), mbt.JS(exp), obs.bankMsg), cs}, steps
 		}
+		if k == 0 {
+			// genesis verified: keep it as the base layer of the following behaviours
+			e.gen, e.genKey = e.outer, gk
+			e.outer = e.gen.MultiCacheWrap()
+		}
 	}
 	return nil, steps
+}
+
+func num(v any) int64 {
+	f, _ := v.(float64)
+	return int64(f)
+}
+
+// equals compares the raw dump with the projected state of the spec, field by field.
+func (d *dump) equals(exp map[string]any, names []string) bool {
+	acct, _ := exp["acct"].(map[string]any)
+	split, _ := exp["split"].(map[string]any)
+	accs, _ := exp["accs"].(map[string]any)
+	sup, _ := exp["supply"].(map[string]any)
+	if len(acct) != len(names) || len(split) != len(names) || len(accs) != len(names) {
+		return false
+	}
+	for _, n := range names {
+		ea, _ := acct[n].(map[string]any)
+		es, _ := split[n].(map[string]any)
+		ec, _ := accs[n].(map[string]any)
+		for _, dk := range []string{"u", "t"} {
+			if num(ea[dk]) != d.Acct[n][dk] || num(es[dk]) != d.Split[n][dk] {
+				return false
+			}
+		}
+		if ec["kind"] != d.Accs[n]["kind"] || num(ec["num"]) != d.Accs[n]["num"].(int64) {
+			return false
+		}
+	}
+	for _, dk := range []string{"u", "t"} {
+		if num(sup[dk]) != d.Supply[dk] {
+			return false
+		}
+	}
+	b, _ := exp["bankinv"].(bool)
+	return num(exp["nextnum"]) == d.NextNum && b == d.BankInv
 }
 
 func dropSt(s mbt.Step) map[string]any {
@@ -468,45 +524,58 @@ func replay(f *mbt.Flags) {
 	if strings.Contains(f.Extra, "scale=60") {
 		scale = 1 << 60
 	}
-	behs, err := mbt.ReadBehaviours(f.In)
+	fh, err := os.Open(f.In)
 	if err != nil {
 		mbt.Die("%v", err)
 	}
+	defer fh.Close()
 	nw := runtime.NumCPU()
 	if nw > 8 {
 		nw = 8
 	}
-	if nw > len(behs) {
-		nw = len(behs)
-	}
-	var okc, steps, flaky int64
+	var okc, steps, flaky, total int64
+	ch := make(chan []mbt.Step, 256)
 	var wg sync.WaitGroup
 	for w := 0; w < nw; w++ {
 		wg.Add(1)
-		go func(w int) {
+		go func() {
 			defer wg.Done()
 			e := newKenv(scale)
-			for i := w; i < len(behs); i += nw {
-				mis, n := replayOne(e, behs[i])
+			for beh := range ch {
+				mis, n := replayOne(e, beh)
 				atomic.AddInt64(&steps, int64(n))
 				if mis == nil {
 					atomic.AddInt64(&okc, 1)
 					continue
 				}
 				// soundness rule 4: a failing case is re-run once from a fresh object
-				if mis2, _ := replayOne(newKenv(scale), behs[i]); mis2 != nil {
+				if mis2, _ := replayOne(newKenv(scale), beh); mis2 != nil {
 					mbt.Mismatch(mis2.key, mis2.what, mis2.cs)
 				} else {
 					atomic.AddInt64(&flaky, 1)
 				}
 			}
-		}(w)
+		}()
 	}
+	sc := bufio.NewScanner(fh)
+	sc.Buffer(make([]byte, 1<<20), 1<<28)
+	for sc.Scan() {
+		if len(sc.Bytes()) == 0 {
+			continue
+		}
+		var beh []mbt.Step
+		if err := json.Unmarshal(sc.Bytes(), &beh); err != nil {
+			mbt.Die("bad behaviour line: %v", err)
+		}
+		if total < 2 {
+			mbt.Sample(beh)
+		}
+		total++
+		ch <- beh
+	}
+	close(ch)
 	wg.Wait()
-	for i := 0; i < len(behs) && i < 2; i++ {
-		mbt.Sample(behs[i])
-	}
-	mbt.Summary(map[string]any{"behaviours": len(behs), "replays": len(behs), "replays_ok": okc, "steps": steps, "flaky": flaky})
+	mbt.Summary(map[string]any{"behaviours": total, "replays": total, "replays_ok": okc, "steps": steps, "flaky": flaky})
 }
 
 func main() {
